@@ -10,6 +10,8 @@ From V.c19 Require Import C19FragModel C19FragProofs C19DimsProofs C19EsdsProofs
 From V.c18 Require C18Model C18EntryModel.
 From V.c15 Require C15Model C15Spec C15HevcModel C15HevcSpec C15Examples C15HevcExamples.
 From V.c05 Require C05Model C05FragModel C05HistProofs C05GhostProofs C05ReadProofs C05RoundProofs C05SingleProofs.
+From V.c19 Require Import C19Ac3Model.
+From V.c19 Require C19Ac3Proofs.
 
 
 (* For EVERY op sequence (any arguments, including calls that return an error or panic; the history stops
@@ -891,3 +893,71 @@ Proof.
   split; [repeat constructor|]. split; [vm_compute; reflexivity|]. split; [vm_compute; reflexivity|].
   eexists; eexists; eexists. split; [vm_compute; reflexivity|]. split; [reflexivity|]. split; reflexivity.
 Qed.
+
+(* ------------------------------------------------------------------ AC-3 / Enhanced AC-3 configuration boxes, TYPED decoding
+   (C19Ac3Model.v: decodeDac3FromData / decodeDec3FromData over C13's model of bits.Reader; round 4) *)
+
+(* EVERY dac3 whose fields fit their bits (fscod 2, bsid 5, bsmod 3, acmod 3, lfeon 1, bit_rate_code 5): the 3 bytes
+   Dac3Box.EncodeSW writes decode, with the real decoder's algorithm, to the fields supplied, Reserved 0, no initial zeroes *)
+Theorem C19_dac3_roundtrip :
+  forall d, dac3_okb d = true -> dac3_decode (dac3_payload d) = Ok (d, 0, 0).
+Proof. exact C19Ac3Proofs.dac3_roundtrip. Qed.
+Print Assumptions C19_dac3_roundtrip.
+
+(* EVERY dec3 with a 13-bit data rate and 1..8 substreams whose fields fit their bits (chan_loc 9 bits next to a non-zero
+   num_dep_sub, 0 otherwise: the box has no chan_loc without dependent substreams): the bytes Dec3Box.EncodeSW writes decode
+   to the SAME substream list, in order, with nothing left over as Reserved *)
+Theorem C19_dec3_roundtrip :
+  forall d, dec3_okb d = true -> exists p, dec3_payload d = Some p /\ dec3_decode p = Ok (d, []).
+Proof. exact C19Ac3Proofs.dec3_roundtrip. Qed.
+Print Assumptions C19_dec3_roundtrip.
+
+(* the guard on chan_loc is exact: a ChanLoc next to NumDepSub = 0 is not written, the decoder returns 0 *)
+Theorem C19_dec3_chanloc_refuted :
+  exists d p, dec3_payload d = Some p /\ dec3_decode p <> Ok (d, []) /\
+              d = mkDec3 640 [mkEc3Sub 0 16 0 0 7 1 0 5].
+Proof. exact C19Ac3Proofs.dec3_chanloc_refuted. Qed.
+Print Assumptions C19_dec3_chanloc_refuted.
+
+(* "a sample entry whose ... codec configuration ... equal those supplied", for AC-3 / E-AC-3 at the level of the BYTES of the
+   sample entry: a successful Set{AC3,EC3}Descriptor with such a configuration adds one entry whose box is the audio sample
+   entry with a dac3 / dec3 child, and the child's payload decodes to exactly the configuration supplied.  (C19_roundtrip:
+   that payload is what C01's decoder returns inside the decoded init.) *)
+Theorem C19_descriptor_ac3_decoded :
+  forall t d t',
+    dac3_okb d = true -> set_ac3 t d = (OOk, t') ->
+    exists e, sd_entries t' = sd_entries t ++ [e] /\ se_cfg e = CfgDac3 d /\
+              entry_box e = Some (preb (LAudio (se_name e) (se_dref e) (se_a e) (se_b e) (se_c e))
+                                       [unkb n_dac3 (dac3_payload d)]) /\
+              dac3_decode (dac3_payload d) = Ok (d, 0, 0).
+Proof. exact C19Ac3Proofs.descriptor_ac3_decoded. Qed.
+Print Assumptions C19_descriptor_ac3_decoded.
+
+Theorem C19_descriptor_ec3_decoded :
+  forall t d t',
+    dec3_okb d = true -> set_ec3 t d = (OOk, t') ->
+    exists e p, sd_entries t' = sd_entries t ++ [e] /\ se_cfg e = CfgDec3 d /\
+                entry_box e = Some (preb (LAudio (se_name e) (se_dref e) (se_a e) (se_b e) (se_c e)) [unkb n_dec3 p]) /\
+                dec3_decode p = Ok (d, []).
+Proof. exact C19Ac3Proofs.descriptor_ec3_decoded. Qed.
+Print Assumptions C19_descriptor_ec3_decoded.
+
+(* the hypotheses are satisfiable: 5.1 AC-3 at 384 kbit/s; E-AC-3 with three substreams, the first with a dependent
+   substream carrying Lrs/Rrs (7.1); both calls succeed on an audio track *)
+Example C19_descriptor_ac3_decoded_hyp :
+  let d := mkDac3 0 8 0 7 1 14 in
+  dac3_okb d = true /\ dac3_payload d = [16; 61; 192] /\
+  match create_empty_trak 1 48000 (BS "audio") (BS "en") with
+  | Some t => exists t', set_ac3 t d = (OOk, t')
+  | None => False
+  end.
+Proof. vm_compute. repeat split. eexists. reflexivity. Qed.
+
+Example C19_descriptor_ec3_decoded_hyp :
+  let d := mkDec3 768 [mkEc3Sub 0 16 0 0 7 1 1 2; mkEc3Sub 1 16 1 2 2 0 0 0; mkEc3Sub 2 31 0 7 0 1 15 511] in
+  dec3_okb d = true /\
+  match create_empty_trak 1 48000 (BS "audio") (BS "en") with
+  | Some t => exists t', set_ec3 t d = (OOk, t')
+  | None => False
+  end.
+Proof. vm_compute. split; [reflexivity|]. eexists. reflexivity. Qed.
